@@ -121,6 +121,9 @@ func CmdCheck(args []string) int {
 	var vcs []*VC
 	for _, fn := range fns {
 		vcs = append(vcs, e.VerifyFunc(fn))
+		for _, view := range e.viewsOf(fn) {
+			vcs = append(vcs, e.VerifyFuncView(fn, view))
+		}
 	}
 	for _, li := range e.lemmas {
 		use := len(li.c.Tags) == 0
